@@ -368,6 +368,12 @@ int main(int argc, char** argv) {
                 bool picked = false;
                 for (u32 p : picks)
                     picked |= p == k;
+                // always: the value the word currently reads in the instruction state ("write back what is there" - the
+                // push W ... pop W idiom; not a no-op for words with write-one-to-clear or command bits)
+                if (v == pr::Get(W, Si)) {
+                    picked = true;
+                    ctx.count("instr_rewrite_current_value");
+                }
                 if (!picked)
                     continue;
                 std::string wn = W.name;
